@@ -69,6 +69,11 @@ def build_layout(root: str, variant: dict):
         ("l", "sb/loop", "loop"), ("l", "sb/loop.oct.md", "loop.oct.md"),
         ("l", "sb/docs/ln_up", ".."), ("l", "sb/docs/ln_out", "../../out"),
         ("l", "sb/docs/dangling2.md", "gone.md"),
+        # link names that change under Unicode normalisation / compatibility folding (full-width letters, decomposed accent):
+        # a validator that normalises the string first examines a name that does not exist and never sees the link
+        ("l", "sb/\uff44\uff4f\uff43\uff53", os.path.join(root, "out/secretdir") if absl else "../out/secretdir"),
+        ("l", "sb/cafe\u0301", os.path.join(root, "out/secretdir") if absl else "../out/secretdir"),
+        ("l", "sb/\u212bdir", "dir"), ("l", "sb/\ufb01le.oct.md", os.path.join(root, "out/secret.oct.md") if absl else "../out/secret.oct.md"),
         # home with a standards cache
         ("d", "home/.octave/standards", 0o755),
         ("f", f"home/.octave/standards/{GOOD_DIGEST[:16]}.oct.md", GOOD_STD, 0o644),
@@ -110,14 +115,15 @@ def _schema_text(name: str) -> bytes:
 
 
 DIR_SEGS = ["docs", "dir", "dir/deep", "newdir", ".", "..", "ln_dir_in", "ln_dir_out", "dangling_dir", "chain1", "loop",
-            "docs/ln_up", "docs/ln_out", "", "vocab"]
+            "docs/ln_up", "docs/ln_out", "", "vocab", "\uff44\uff4f\uff43\uff53", "cafe\u0301", "\u212bdir", "\uff0e\uff0e", "\u2024\u2024"]
 FINAL_SEGS = ["a.oct.md", "new.oct.md", "new.octave", "new.md", "b.md", "c.octave", "top.oct.md", "new.txt", "notes.txt",
               "new.oct.md.bak", "new.tar.md", "new.oct.MD", "NEW.OCT.MD", "new.md.", "new", "new.oct.md/", "ln_file_in.oct.md",
               "ln_file_out.oct.md", "dangling.oct.md", "dangling_out.oct.md", "dangling2.md", "loop.oct.md", "", "a\x00b.oct.md",
               "L" * 300 + ".oct.md", ".md", "new.oct.md ", "new.Md", "new.json", "..", ".", "secret.oct.md", "s.oct.md",
               "new.m\u0501", "new.oct.md\u200b", "new.\uff2d\uff24", "new.md\n", "new.md\t", "x..md", ".oct.md", "new.octave.", "new.OCTAVE",
               "new.oct.md.", "new.md/.", "new.md/..", "new.txt/../new.md", "new.md\\", "new.oct", "new.octave.txt", "new.mdx", "newmd",
-              "new.oct.md~", "new.md;x.txt", "new.md%00.txt", "caf\u00e9.md", "cafe\u0301.md"]
+              "new.oct.md~", "new.md;x.txt", "new.md%00.txt", "caf\u00e9.md", "cafe\u0301.md",
+              "note.oct.\uff4d\uff44", "note.\uff4d\uff44", "note\uff0emd", "note.m\u217e", "\ufb01le.oct.md", "note.md\u0301", "note.oct\u2024md"]
 
 
 def gen_path(t: Tape) -> dict:
